@@ -1,9 +1,85 @@
 import Pandora.Drv.Util
+import Pandora.Spec.C20
 
 namespace Pandora.Drv.C20
-open Pandora.Drv
+open Pandora.Drv Pandora.Model.C20 Pandora.Model.C20Conc Pandora.Spec.C20
 
-/-- stub: replaced when the property's model driver is written -/
-def handle : Handler := fun _ _ => ("-", "skip:not-built")
+def cut (s : String) (sep : Char) : String × String := cutAt s sep
+
+def parsePairs (s : String) : List (String × String) :=
+  (splitList s ",").map fun p => cut p ':'
+
+def parseVal (tok : String) : PVal :=
+  let (kind, body) := cut tok '.'
+  pvalOf kind (dec body)
+
+def nth (l : List String) (n : Nat) : String := l.getD n ""
+
+def parseEntry (e : String) : Entry :=
+  let p := e.splitOn "|"
+  { tag := dec (nth p 0), call := dec (nth p 1),
+    md := (parsePairs (nth p 2)).map fun (k, v) => (dec k, dec v),
+    payload := (parsePairs (nth p 3)).map fun (k, v) => (dec k, parseVal v) }
+
+def parseCall (c : String) : CallDef :=
+  let p := c.splitOn "|"
+  { name := nth p 0, call := dec (nth p 1),
+    md := (parsePairs (nth p 2)).map fun (k, v) => (dec k, parseTmpl (dec v)),
+    payload := (parsePairs (nth p 3)).map fun (k, v) =>
+      let (kind, body) := cut v '.'
+      (dec k, kind, parseTmpl (dec body)),
+    pre := nth p 4 == "u" }
+
+def parseScn (s : String) : ScenDef :=
+  let p := s.splitOn ":"
+  { name := nth p 0, weight := (nth p 1).toNat?.getD 0,
+    reqs := (splitList (nth p 2) "+").flatMap fun r =>
+      let (name, cnt) := cut r '*'
+      List.replicate (if cnt.isEmpty then 1 else cnt.toNat?.getD 1) name }
+
+def parseCfg (kv : List (String × String)) : Cfg :=
+  { tmo := (getN? kv "tmo").getD 0,
+    users := (splitList (getS kv "users")).map dec,
+    g := dec (getS kv "g"),
+    calls := (splitList (getS kv "calls") ";").map parseCall,
+    scns := (splitList (getS kv "scns") ";").map parseScn }
+
+def parseSched (s : String) : List Nat := s.toList.map fun c => c.toNat - 48
+
+def hasOther (es : List Entry) : Bool := es.any fun e => e.payload.any fun (_, v) => match v with | .other => true | _ => false
+
+def handle : Handler := fun input impl =>
+  let kv := parseKV input
+  match getS kv "mode" with
+  | "table" => (tableText, if impl == tableText then "ok" else "fail:method-table:the reflected method table differs from the model's")
+  | "json" =>
+    let es := (splitList (getS kv "e") ";").map parseEntry
+    if hasOther es then ("-", "skip:unmodelled-value") else
+    let tmo := (getN? kv "tmo").getD 0
+    -- model: every instance fires its share one entry at a time; the multiset does not depend on the split
+    let (_, outs) := shootAll tmo { shots := 0 } es
+    let (mc, ms) := multisetText outs
+    let exp := expectedEntries tmo es
+    ("run=- calls=" ++ mc ++ " samples=" ++ ms, judgeMultiset (exp.flatMap (·.calls)) (exp.flatMap (·.samples)) impl)
+  | "scen" =>
+    let c := parseCfg kv
+    if getS kv "run" == "engine" then
+      ("-", judgeEngineScen c ((getN? kv "shots").getD 0) impl)
+    else
+      let sched := parseSched (getS kv "sched")
+      match expectedSched c sched 0 [] [] with
+      | none => ("-", "skip:outside-modelled-fragment")
+      | some exp =>
+        let verdict := judgeTrace exp impl
+        let modelObs := match runSched .copy c sched 0 (initWorld c) [] with
+          | .inl (some tr) => traceText tr
+          | _ => "-"
+        if verdict == "ok" then (modelObs, verdict) else
+        -- diagnostic: does the implementation behave like the in-place model (the code as written)?
+        let inPlace := match runSched .inPlace c sched 0 (initWorld c) [] with
+          | .inl (some tr) => traceText tr
+          | _ => "-"
+        (modelObs, verdict ++ (if inPlace == impl then " [observation equals the in-place (shared map) model]" else ""))
+  | _ => ("-", "fail:driver:unknown mode")
 
 end Pandora.Drv.C20
